@@ -9,6 +9,7 @@
   context, `D` is an ordinary type checker: no flexible type arises.
 -/
 import RotoV.Lemmas.Typing
+import RotoV.Lemmas.TypingAux
 
 namespace RotoV.Typing
 
@@ -35,10 +36,28 @@ def fillsE : Expr → Expr → Bool
   | .assign false x path e, .assign false x' path' e' => x == x' && path == path' && fillsE e e'
   | .cassign op false x path e, .cassign op' false x' path' e' =>
     op == op' && x == x' && path == path' && fillsE e e'
+  | .some e, .some e' => fillsE e e'
+  | .fstr es, .fstr es' => fillsL es es'
+  | .listLit (e :: es), .listLit (e' :: es') => fillsE e e' && fillsL es es'
+  | .for x e b, .for x' e' b' => x == x' && fillsE e e' && fillsB b b'
+  | .ctor t k args, .ctor t' k' args' => t == t' && k == k' && fillsL args args'
+  | .try e, .try e' => fillsE e e'
+  | .record t fs, .record t' fs' => t == t' && fillsF fs fs'
+  | .match e (a :: arms), .match e' (a' :: arms') => fillsE e e' && fillsA (a :: arms) (a' :: arms')
+  | _, _ => false
+def fillsA : List Arm → List Arm → Bool
+  | [], [] => true
+  | .mk p none b :: r, .mk p' none b' :: r' => patBeq p p' && fillsB b b' && fillsA r r'
+  | .mk p (some gd) b :: r, .mk p' (some gd') b' :: r' =>
+    patBeq p p' && fillsE gd gd' && fillsB b b' && fillsA r r'
   | _, _ => false
 def fillsL : List Expr → List Expr → Bool
   | [], [] => true
   | e :: r, e' :: r' => fillsE e e' && fillsL r r'
+  | _, _ => false
+def fillsF : List Field → List Field → Bool
+  | [], [] => true
+  | .mk n e :: r, .mk n' e' :: r' => n == n' && fillsE e e' && fillsF r r'
   | _, _ => false
 def fillsS : List Stmt → List Stmt → Bool
   | [], [] => true
@@ -62,6 +81,27 @@ def MonoL (env : Env) (ctx : Ctx) (args args' : List Expr) : Prop :=
   ∀ (g g' : Gamma) (tys : List Ty) (d' : Bool), fillsL args args' = true → gammaInst g g' = true →
     tys.all ground = true → checkArgs env ctx g' args' tys = .ok d' →
     d' = false ∧ checkArgs env ctx g args tys = .ok false
+
+def MonoList (env : Env) (ctx : Ctx) (es es' : List Expr) : Prop :=
+  ∀ (g g' : Gamma) (ts' : List Ty) (d' : Bool), fillsL es es' = true → gammaInst g g' = true →
+    synthList env ctx g' es' = .ok (ts', d') →
+    d' = false ∧ ∃ ts, synthList env ctx g es = .ok (ts, false) ∧ instList ts ts' = true ∧
+      ts'.all ground = true
+
+def MonoF (env : Env) (ctx : Ctx) (fs fs' : List Field) : Prop :=
+  ∀ (g g' : Gamma) (decl : List (Nat × Ty)) (d' : Bool), fillsF fs fs' = true → gammaInst g g' = true →
+    (decl.all fun f => ground f.2) = true → checkFields env ctx g' fs' decl = .ok d' →
+    d' = false ∧ checkFields env ctx g fs decl = .ok false
+
+def MonoA (env : Env) (ctx : Ctx) (arms arms' : List Arm) : Prop :=
+  ∀ (g g' : Gamma) (vsf : Option (List (PatName × List Ty))) (vs' : List (PatName × List Ty))
+    (ts' : List Ty) (da' : Bool), fillsA arms arms' = true → gammaInst g g' = true →
+    armVariantsOk vsf vs' = true → ArmsArity vs' arms' →
+    (∀ n tys, lookupVariant vs' n = some tys → tys.all ground = true) →
+    synthArms env ctx g' (some vs') arms' = .ok (ts', da') →
+    (arms' ≠ [] → da' = false) ∧ ts'.length = arms'.length ∧
+      ∃ ts, synthArms env ctx g vsf arms = .ok (ts, da') ∧
+        instList ts ts' = true ∧ ts'.all ground = true
 
 def MonoS (env : Env) (ctx : Ctx) (ss ss' : List Stmt) : Prop :=
   ∀ (g g' g1' : Gamma) (d' : Bool), fillsS ss ss' = true → gammaInst g g' = true →
@@ -174,6 +214,163 @@ theorem wfTy_ground (env : Env) : ∀ t, wfTy env t = true → ground t = true :
     intro h; simp only [wfTy, Bool.and_eq_true] at h
     simp only [ground, Bool.and_eq_true]; exact ⟨iha h.1, ihb h.2⟩
   | _ => intro h; simp_all [wfTy, ground]
+
+theorem fillsF_names : ∀ (fs fs' : List Field), fillsF fs fs' = true → fieldNames fs = fieldNames fs' := by
+  intro fs
+  induction fs with
+  | nil => intro fs' h; cases fs' <;> simp_all [fillsF, fieldNames]
+  | cons f r ih =>
+    intro fs' h
+    cases fs' with
+    | nil => cases f; simp [fillsF] at h
+    | cons f' r' =>
+      cases f; cases f'
+      simp only [fillsF, Bool.and_eq_true, beq_iff_eq] at h
+      simp [fieldNames, h.1.1, ih r' h.2]
+
+/-- all elements of a non-empty ground list that folds are the result -/
+theorem foldCompat_ground (what : String) : ∀ (ts : List Ty) (acc tr : Ty), ts.all ground = true →
+    ground acc = true → foldCompat what ts acc = .ok tr → tr = acc ∧ ∀ t ∈ ts, t = acc := by
+  intro ts
+  induction ts with
+  | nil => intro acc tr _ _ h; simp only [foldCompat, pure, Except.pure, Except.ok.injEq] at h; exact ⟨h.symm, by simp⟩
+  | cons t r ih =>
+    intro acc tr hg ha h
+    simp only [List.all_cons, Bool.and_eq_true] at hg
+    simp only [foldCompat] at h
+    by_cases hc : compat t acc = true
+    · simp only [hc, ↓reduceIte] at h
+      have := compat_ground_eq t acc hg.1 ha hc
+      subst this
+      rw [meet_self t hg.1] at h
+      obtain ⟨h1, h2⟩ := ih t tr hg.2 ha h
+      exact ⟨h1, by intro u hu; rcases List.mem_cons.1 hu with hu | hu; exact hu; exact h2 u hu⟩
+    · simp [hc, fail] at h
+
+theorem foldCompat_flex (what : String) : ∀ (ts ts' : List Ty) (acc g : Ty), instList ts ts' = true →
+    (∀ t ∈ ts', t = g) → inst acc g = true → ∃ tr, foldCompat what ts acc = .ok tr ∧ inst tr g = true := by
+  intro ts
+  induction ts with
+  | nil => intro ts' acc g h _ ha; cases ts' <;> simp_all [instList, foldCompat, pure, Except.pure]
+  | cons t r ih =>
+    intro ts' acc g h hall ha
+    cases ts' with
+    | nil => simp [instList] at h
+    | cons t' r' =>
+      simp only [instList, Bool.and_eq_true] at h
+      have ht' : t' = g := hall t' List.mem_cons_self
+      subst ht'
+      obtain ⟨c, _⟩ := inst_compat_meet t' t acc h.1 ha
+      obtain ⟨_, m⟩ := inst_compat_meet t' acc t ha h.1
+      simp only [foldCompat, c, ↓reduceIte]
+      exact ih r' (meet acc t) t' h.2 (fun u hu => hall u (List.mem_cons_of_mem _ hu)) m
+
+/-- a non-empty list literal: the ground side has one element type, the flexible side an instance of it -/
+theorem foldCompat_mono (what : String) (ts ts' : List Ty) (tr' : Ty) (hne : ts' ≠ [])
+    (hi : instList ts ts' = true) (hg : ts'.all ground = true)
+    (h : foldCompat what ts' .unknown = .ok tr') :
+    ground tr' = true ∧ ∃ tr, foldCompat what ts .unknown = .ok tr ∧ inst tr tr' = true := by
+  cases ts' with
+  | nil => exact absurd rfl hne
+  | cons t0 r' =>
+    simp only [List.all_cons, Bool.and_eq_true] at hg
+    simp only [foldCompat, compat] at h
+    have hm : meet Ty.unknown t0 = t0 := by cases t0 <;> rfl
+    have hc : compat t0 Ty.unknown = true := by cases t0 <;> rfl
+    simp only [hc, ↓reduceIte, hm] at h
+    obtain ⟨h1, h2⟩ := foldCompat_ground what r' t0 tr' hg.2 hg.1 h
+    subst h1
+    refine ⟨hg.1, ?_⟩
+    exact foldCompat_flex what ts (tr' :: r') .unknown tr' hi
+      (by intro u hu; rcases List.mem_cons.1 hu with hu | hu; exact hu; exact h2 u hu) (by simp [inst])
+
+theorem fillsA_heads : ∀ (arms arms' : List Arm), fillsA arms arms' = true → armHeads arms = armHeads arms' := by
+  intro arms
+  induction arms with
+  | nil => intro arms' h; cases arms' <;> simp_all [fillsA, armHeads]
+  | cons a r ih =>
+    intro arms' h
+    cases arms' with
+    | nil => cases a with | mk p gd b => cases gd <;> simp [fillsA] at h
+    | cons a' r' =>
+      cases a with
+      | mk p gd b =>
+      cases a' with
+      | mk p' gd' b' =>
+      cases gd with
+      | none =>
+        cases gd' with
+        | none =>
+          simp only [fillsA, Bool.and_eq_true] at h
+          obtain ⟨⟨hp, _⟩, hr⟩ := h
+          simp [armHeads, patBeq_eq p p' hp, ih r' hr]
+        | some x => simp [fillsA] at h
+      | some y =>
+        cases gd' with
+        | none => simp [fillsA] at h
+        | some x =>
+          simp only [fillsA, Bool.and_eq_true] at h
+          obtain ⟨⟨⟨hp, _⟩, _⟩, hr⟩ := h
+          simp [armHeads, patBeq_eq p p' hp, ih r' hr]
+
+theorem variantsInst_self : ∀ (vs : List (PatName × List Ty)), (vs.all fun v => v.2.all ground) = true →
+    variantsInst vs vs = true := by
+  intro vs
+  induction vs with
+  | nil => intro _; rfl
+  | cons v r ih =>
+    intro h
+    obtain ⟨n, ts⟩ := v
+    simp only [List.all_cons, Bool.and_eq_true] at h
+    have hself : ∀ (l : List Ty), l.all ground = true → instList l l = true := by
+      intro l
+      induction l with
+      | nil => intro _; rfl
+      | cons t r' ih' =>
+        intro hl
+        simp only [List.all_cons, Bool.and_eq_true] at hl
+        simp [instList, inst_self t hl.1, ih' hl.2]
+    have hn : patNameEq n n = true := by cases n <;> simp [patNameEq]
+    simp [variantsInst, hn, hself ts h.1, h.1, ih h.2]
+
+theorem lookupVariant_ground : ∀ (vs : List (PatName × List Ty)), (vs.all fun v => v.2.all ground) = true →
+    ∀ n tys, lookupVariant vs n = some tys → tys.all ground = true := by
+  intro vs
+  induction vs with
+  | nil => intro _ n tys h; simp [lookupVariant] at h
+  | cons v r ih =>
+    intro hg n tys h
+    obtain ⟨m, ts⟩ := v
+    simp only [List.all_cons, Bool.and_eq_true] at hg
+    simp only [lookupVariant] at h
+    by_cases hm : patNameEq m n = true
+    · simp only [hm, ↓reduceIte, Option.some.injEq] at h; subst h; exact hg.1
+    · simp only [hm, Bool.false_eq_true, ↓reduceIte] at h; exact ih hg.2 n tys h
+
+/-- the variants of a ground examinee type are ground -/
+theorem variantsOf_ground (env : Env) (henv : envGround env = true) (t : Ty) (hg : ground t = true)
+    (vs : List (PatName × List Ty)) (h : variantsOf env t = some vs) :
+    (vs.all fun v => v.2.all ground) = true := by
+  cases t with
+  | opt u =>
+    simp only [variantsOf, Option.some.injEq] at h
+    subst h
+    simpa [ground] using hg
+  | named n =>
+    simp only [variantsOf] at h
+    cases hl : env.types.lookup n with
+    | none => simp [hl] at h
+    | some df =>
+      cases df with
+      | record fs => simp [hl] at h
+      | enum evs =>
+        simp only [hl, Option.some.injEq] at h
+        subst h
+        simp only [envGround, Bool.and_eq_true] at henv
+        obtain ⟨_, hp⟩ := lookup_all henv.2 hl
+        simp only at hp
+        simpa [List.all_map] using hp
+  | _ => simp [variantsOf] at h
 
 theorem fillsL_length : ∀ (xs ys : List Expr), fillsL xs ys = true → xs.length = ys.length := by
   intro xs
@@ -600,6 +797,397 @@ theorem monoE (env : Env) (henv : envGround env = true) (ctx : Ctx) (e e' : Expr
                 refine ⟨rfl, .unit, ?_, by simp [inst], by simp [ground]⟩
                 simp [a1, b1, expect_ok (inst_compat_meet tr trf tpf b2 p2).1, pure, Except.pure]
     | _ => simp [fillsE] at hf
+  | some a =>
+    cases e' with
+    | some a' =>
+      simp only [fillsE] at hf
+      simp only [synth, bind, Except.bind] at hs
+      cases hsa : synth env ctx g' a' with
+      | error err => simp [hsa] at hs
+      | ok p =>
+        obtain ⟨ta, da⟩ := p
+        simp only [hsa, pure, Except.pure, Except.ok.injEq, Prod.mk.injEq] at hs
+        obtain ⟨x1, x2⟩ := hs; subst x1; subst x2
+        obtain ⟨hd, tf, h1, h2, h3⟩ := monoE env henv ctx a a' g g' ta da hf hg hsa
+        subst hd
+        exact ⟨rfl, .opt tf, by simp [synth, bind, Except.bind, h1, pure, Except.pure], by simpa [inst] using h2,
+          by simpa [ground] using h3⟩
+    | _ => simp [fillsE] at hf
+  | fstr es =>
+    cases e' with
+    | fstr es' =>
+      simp only [fillsE] at hf
+      simp only [synth, bind, Except.bind] at hs
+      cases hsl : synthList env ctx g' es' with
+      | error err => simp [hsl] at hs
+      | ok p =>
+        obtain ⟨ts', dl⟩ := p
+        simp only [hsl, pure, Except.pure, Except.ok.injEq, Prod.mk.injEq] at hs
+        obtain ⟨x1, x2⟩ := hs; subst x1; subst x2
+        obtain ⟨hd, ts, h1, _, _⟩ := monoList env henv ctx es es' g g' ts' dl hf hg hsl
+        subst hd
+        exact ⟨rfl, .string, by simp [synth, bind, Except.bind, h1, pure, Except.pure], by simp [inst], by simp [ground]⟩
+    | _ => simp [fillsE] at hf
+  | listLit es =>
+    cases e' with
+    | listLit es' =>
+      cases es with
+      | nil => cases es' <;> simp [fillsE] at hf
+      | cons a r =>
+        cases es' with
+        | nil => simp [fillsE] at hf
+        | cons a' r' =>
+          have hfl : fillsL (a :: r) (a' :: r') = true := by simpa [fillsE, fillsL] using hf
+          simp only [synth, bind, Except.bind] at hs
+          cases hsl : synthList env ctx g' (a' :: r') with
+          | error err => simp [hsl] at hs
+          | ok p =>
+            obtain ⟨ts', dl⟩ := p
+            simp only [hsl] at hs
+            obtain ⟨hd, ts, h1, h2, h3⟩ := monoList env henv ctx (a :: r) (a' :: r') g g' ts' dl hfl hg hsl
+            subst hd
+            cases hfc : foldCompat "element" ts' .unknown with
+            | error err => simp [hfc] at hs
+            | ok tr' =>
+              simp only [hfc, pure, Except.pure, Except.ok.injEq, Prod.mk.injEq] at hs
+              obtain ⟨x1, x2⟩ := hs; subst x1; subst x2
+              have hne : ts' ≠ [] := by
+                intro hnil; subst hnil
+                simp only [synthList, bind, Except.bind] at hsl
+                cases h0 : synth env ctx g' a' with
+                | error err => simp [h0] at hsl
+                | ok q =>
+                  simp only [h0] at hsl
+                  cases h1' : synthList env ctx g' r' with
+                  | error err => simp [h1'] at hsl
+                  | ok q2 => simp [h1', pure, Except.pure] at hsl
+              obtain ⟨hgr, tr, f1, f2⟩ := foldCompat_mono "element" ts ts' tr' hne h2 h3 hfc
+              exact ⟨rfl, .list tr, by simp [synth, bind, Except.bind, h1, f1, pure, Except.pure],
+                by simpa [inst] using f2, by simpa [ground] using hgr⟩
+    | _ => simp [fillsE] at hf
+  | «for» x a b =>
+    cases e' with
+    | «for» x' a' b' =>
+      simp only [fillsE, Bool.and_eq_true, beq_iff_eq] at hf
+      obtain ⟨⟨hx, hfa⟩, hfb⟩ := hf
+      subst hx
+      simp only [synth, bind, Except.bind] at hs
+      cases hsa : synth env ctx g' a' with
+      | error err => simp [hsa] at hs
+      | ok p =>
+        obtain ⟨ta, da⟩ := p
+        simp only [hsa] at hs
+        obtain ⟨hd, tf, a1, a2, a3⟩ := monoE env henv ctx a a' g g' ta da hfa hg hsa
+        subst hd
+        -- the ground side iterates over a list
+        cases ta with
+        | list t =>
+          simp only [pure, Except.pure] at hs
+          have hgt : ground t = true := by simpa [ground] using a3
+          cases hsb : synthBlock env ctx ([(x, t)] :: g') b' with
+          | error err => simp [hsb] at hs
+          | ok q =>
+          obtain ⟨tb, db⟩ := q
+          simp only [hsb] at hs
+          cases heb : expect "loop-body-value" tb .unit with
+          | error err => simp [heb] at hs
+          | ok u2 =>
+          simp only [heb, Except.ok.injEq, Prod.mk.injEq] at hs
+          obtain ⟨x1, x2⟩ := hs; subst x1; subst x2
+          -- the flexible side: a list of an instance, or fully flexible
+          cases tf with
+          | list tf' =>
+            have hie : inst tf' t = true := by simpa [inst] using a2
+            have hgi : gammaInst ([(x, tf')] :: g) ([(x, t)] :: g') = true := by
+              simp [gammaInst, scopeInst, hie, hgt, hg]
+            obtain ⟨_, fb, b1, b2, b3⟩ := monoB env henv ctx b b' _ _ tb db hfb hgi hsb
+            have hu := compat_ground_eq tb .unit b3 rfl (expect_inv heb)
+            subst hu
+            refine ⟨rfl, .unit, ?_, by simp [inst], by simp [ground]⟩
+            simp [synth, bind, Except.bind, a1, b1, expect_ok (inst_unit_compat fb b2), pure, Except.pure]
+          | unknown =>
+            have hie : inst Ty.unknown t = true := by simp [inst]
+            have hgi : gammaInst ([(x, Ty.unknown)] :: g) ([(x, t)] :: g') = true := by
+              simp [gammaInst, scopeInst, hie, hgt, hg]
+            obtain ⟨_, fb, b1, b2, b3⟩ := monoB env henv ctx b b' _ _ tb db hfb hgi hsb
+            have hu := compat_ground_eq tb .unit b3 rfl (expect_inv heb)
+            subst hu
+            refine ⟨rfl, .unit, ?_, by simp [inst], by simp [ground]⟩
+            simp [synth, bind, Except.bind, a1, b1, expect_ok (inst_unit_compat fb b2), pure, Except.pure]
+          | never =>
+            have hie : inst Ty.unknown t = true := by simp [inst]
+            have hgi : gammaInst ([(x, Ty.unknown)] :: g) ([(x, t)] :: g') = true := by
+              simp [gammaInst, scopeInst, hie, hgt, hg]
+            obtain ⟨_, fb, b1, b2, b3⟩ := monoB env henv ctx b b' _ _ tb db hfb hgi hsb
+            have hu := compat_ground_eq tb .unit b3 rfl (expect_inv heb)
+            subst hu
+            refine ⟨rfl, .unit, ?_, by simp [inst], by simp [ground]⟩
+            simp [synth, bind, Except.bind, a1, b1, expect_ok (inst_unit_compat fb b2), pure, Except.pure]
+          | _ => simp [inst] at a2
+        | unknown => simp [ground] at a3
+        | never => simp [ground] at a3
+        | _ => simp [fail] at hs
+    | _ => simp [fillsE] at hf
+  | ctor t k args =>
+    cases e' with
+    | ctor t' k' args' =>
+      simp only [fillsE, Bool.and_eq_true, beq_iff_eq] at hf
+      obtain ⟨⟨ht, hk⟩, hfa⟩ := hf
+      subst ht; subst hk
+      simp only [synth, bind, Except.bind] at hs ⊢
+      cases hl : env.types.lookup t with
+      | none => simp [hl, fail] at hs
+      | some df =>
+        cases df with
+        | record fs => simp [hl, fail] at hs
+        | enum vs =>
+          simp only [hl] at hs ⊢
+          cases hv : vs.lookup k with
+          | none => simp [hv, fail] at hs
+          | some tys =>
+            simp only [hv] at hs ⊢
+            have hlen : args.length = args'.length := fillsL_length args args' hfa
+            by_cases hne : (args'.length != tys.length) = true
+            · simp [hne, fail] at hs
+            · simp only [hne, Bool.false_eq_true, ↓reduceIte] at hs
+              rw [hlen]
+              simp only [hne, Bool.false_eq_true, ↓reduceIte]
+              have hgt : tys.all ground = true := by
+                have henv' := henv
+                simp only [envGround, Bool.and_eq_true] at henv'
+                obtain ⟨_, hp⟩ := lookup_all henv'.2 hl
+                simp only at hp
+                obtain ⟨_, hq⟩ := lookup_all hp hv
+                exact hq
+              cases hca : checkArgs env ctx g' args' tys with
+              | error err => simp [hca] at hs
+              | ok d1 =>
+                simp only [hca, pure, Except.pure, Except.ok.injEq, Prod.mk.injEq] at hs
+                obtain ⟨x1, x2⟩ := hs; subst x1; subst x2
+                obtain ⟨hd, h1⟩ := monoL env henv ctx args args' g g' tys d1 hfa hg hgt hca
+                subst hd
+                exact ⟨rfl, .named t, by simp [h1, pure, Except.pure], by simp [inst], by simp [ground]⟩
+    | _ => simp [fillsE] at hf
+  | «try» a =>
+    cases e' with
+    | «try» a' =>
+      simp only [fillsE] at hf
+      simp only [synth, bind, Except.bind] at hs
+      cases hsa : synth env ctx g' a' with
+      | error err => simp [hsa] at hs
+      | ok p =>
+        obtain ⟨ta, da⟩ := p
+        simp only [hsa] at hs
+        obtain ⟨hd, tf, a1, a2, a3⟩ := monoE env henv ctx a a' g g' ta da hf hg hsa
+        subst hd
+        cases ta with
+        | opt t =>
+          simp only [pure, Except.pure] at hs
+          have hgt : ground t = true := by simpa [ground] using a3
+          have hd' : d' = false ∧ t = tg := by
+            cases hr : ctx.retTy with
+            | none => simp [hr, fail] at hs
+            | some rt => cases rt <;> simp_all [fail, pure, Except.pure]
+          obtain ⟨hd', htg⟩ := hd'
+          subst htg
+          cases tf with
+          | opt tf' =>
+            have hie : inst tf' t = true := by simpa [inst] using a2
+            refine ⟨hd', tf', ?_, hie, hgt⟩
+            simp only [synth, bind, Except.bind, a1, pure, Except.pure]
+            cases hr : ctx.retTy with
+            | none => simp [hr, fail] at hs
+            | some rt => cases rt <;> simp_all [fail, pure, Except.pure]
+          | unknown =>
+            have hie : inst Ty.unknown t = true := by simp [inst]
+            refine ⟨hd', Ty.unknown, ?_, hie, hgt⟩
+            simp only [synth, bind, Except.bind, a1, pure, Except.pure]
+            cases hr : ctx.retTy with
+            | none => simp [hr, fail] at hs
+            | some rt => cases rt <;> simp_all [fail, pure, Except.pure]
+          | never =>
+            have hie : inst Ty.unknown t = true := by simp [inst]
+            refine ⟨hd', Ty.unknown, ?_, hie, hgt⟩
+            simp only [synth, bind, Except.bind, a1, pure, Except.pure]
+            cases hr : ctx.retTy with
+            | none => simp [hr, fail] at hs
+            | some rt => cases rt <;> simp_all [fail, pure, Except.pure]
+          | _ => simp [inst] at a2
+        | unknown => simp [ground] at a3
+        | never => simp [ground] at a3
+        | _ => simp [fail] at hs
+    | _ => simp [fillsE] at hf
+  | record t fs =>
+    cases e' with
+    | record t' fs' =>
+      simp only [fillsE, Bool.and_eq_true, beq_iff_eq] at hf
+      obtain ⟨ht, hff⟩ := hf
+      subst ht
+      simp only [synth, bind, Except.bind] at hs ⊢
+      cases hr : recordFields env t with
+      | none => simp [hr, fail] at hs
+      | some decl =>
+        simp only [hr] at hs ⊢
+        rw [fillsF_names fs fs' hff]
+        cases hn : fieldNamesOk (decl.map (·.1)) (fieldNames fs') with
+        | some err => simp [hn, fail] at hs
+        | none =>
+          simp only [hn] at hs ⊢
+          have hgd : (decl.all fun f => ground f.2) = true := by
+            unfold recordFields at hr
+            cases hl : env.types.lookup t with
+            | none => simp [hl] at hr
+            | some df =>
+              cases df with
+              | record fs0 =>
+                simp only [hl, Option.some.injEq] at hr
+                subst hr
+                have henv' := henv
+                simp only [envGround, Bool.and_eq_true] at henv'
+                obtain ⟨_, hp⟩ := lookup_all henv'.2 hl
+                exact hp
+              | enum vs => simp [hl] at hr
+          cases hcf : checkFields env ctx g' fs' decl with
+          | error err => simp [hcf] at hs
+          | ok d1 =>
+            simp only [hcf, pure, Except.pure, Except.ok.injEq, Prod.mk.injEq] at hs
+            obtain ⟨x1, x2⟩ := hs; subst x1; subst x2
+            obtain ⟨hd, h1⟩ := monoF env henv ctx fs fs' g g' decl d1 hff hg hgd hcf
+            subst hd
+            exact ⟨rfl, .named t, by simp [h1, pure, Except.pure], by simp [inst], by simp [ground]⟩
+    | _ => simp [fillsE] at hf
+  | «match» sc arms =>
+    cases e' with
+    | «match» sc' arms' =>
+      cases arms with
+      | nil => cases arms' <;> simp [fillsE] at hf
+      | cons a0 ar =>
+      cases arms' with
+      | nil => simp [fillsE] at hf
+      | cons a0' ar' =>
+      simp only [fillsE, Bool.and_eq_true] at hf
+      obtain ⟨hfe, hfa⟩ := hf
+      simp only [synth, bind, Except.bind] at hs
+      cases hse : synth env ctx g' sc' with
+      | error err => simp [hse] at hs
+      | ok q =>
+        obtain ⟨t', de⟩ := q
+        simp only [hse] at hs
+        obtain ⟨hde, tf, e1, e2, e3⟩ := monoE env henv ctx sc sc' g g' t' de hfe hg hse
+        subst hde
+        -- the ground examinee is an enum type: its variants
+        have hex : ∃ vs', variantsOf env t' = some vs' ∧
+            matchHeads vs' (armHeads (a0' :: ar')) [] false = none ∧
+            ∃ ts' da tr', synthArms env ctx g' (some vs') (a0' :: ar') = .ok (ts', da) ∧
+              foldCompat "branches" ts' .unknown = .ok tr' ∧ tg = tr' ∧
+              d' = (false || (!(a0' :: ar').isEmpty && da)) := by
+          cases t' <;> simp only [ground] at e3 <;> simp only [] at hs <;>
+          (first
+            | (cases e3; done)
+            | (cases hv : variantsOf env _ with
+              | none => simp [hv, fail] at hs
+              | some vs' =>
+                simp only [hv] at hs
+                cases hm : matchHeads vs' (armHeads (a0' :: ar')) [] false with
+                | some err => simp [hm, fail] at hs
+                | none =>
+                  simp only [hm] at hs
+                  cases hsa : synthArms env ctx g' (some vs') (a0' :: ar') with
+                  | error err => simp [hsa] at hs
+                  | ok q2 =>
+                    obtain ⟨ts', da⟩ := q2
+                    simp only [hsa] at hs
+                    cases hfc : foldCompat "branches" ts' .unknown with
+                    | error err => simp [hfc] at hs
+                    | ok tr' =>
+                      simp only [hfc, pure, Except.pure, Except.ok.injEq, Prod.mk.injEq] at hs
+                      exact ⟨vs', rfl, hm, ts', da, tr', hsa, hfc, hs.1.symm, hs.2.symm⟩))
+        obtain ⟨vs', hv', hmh', ts', da, tr', hsa, hfc, htg, hd'⟩ := hex
+        rw [htg, hd']
+        have hvgall := variantsOf_ground env henv t' e3 vs' hv'
+        have hvg := lookupVariant_ground vs' hvgall
+        have harity := matchHeads_arity vs' (a0' :: ar') [] false hmh'
+        -- the flexible examinee: the same enum type with instances as arguments, or fully flexible
+        cases t' with
+        | opt u' =>
+          simp only [variantsOf, Option.some.injEq] at hv'
+          cases tf with
+          | opt u =>
+            have hvi : variantsInst [(PatName.some, [u]), (PatName.none, [])] vs' = true := by
+              have hi : inst u u' = true := by simpa [inst] using e2
+              have hg' : ground u' = true := by simpa [ground] using e3
+              rw [← hv']
+              simp [variantsInst, instList, patNameEq, hi, hg']
+            obtain ⟨hda, hlen, ts, s1, s2, s3⟩ := monoA env henv ctx (a0 :: ar) (a0' :: ar') g g' (some [(PatName.some, [u]), (PatName.none, [])]) vs' ts' da hfa hg
+              (by simpa [armVariantsOk] using hvi) harity hvg hsa
+            have hne : ts' ≠ [] := by intro h0; rw [h0] at hlen; simp at hlen
+            obtain ⟨hgr, tr, f1, f2⟩ := foldCompat_mono "branches" ts ts' tr' hne s2 s3 hfc
+            have hda' := hda (by simp)
+            subst hda'
+            have hmh : matchHeads [(PatName.some, [u]), (PatName.none, [])] (armHeads (a0 :: ar)) [] false = none := by
+              rw [matchHeads_rel _ vs' hvi, fillsA_heads _ _ hfa]; exact hmh'
+            refine ⟨by simp, tr, ?_, f2, hgr⟩
+            simp [synth, bind, Except.bind, e1, variantsOf, hmh, s1, f1, pure, Except.pure]
+          | unknown =>
+            -- nothing is known about the examinee on the flexible side: only the arms are checked
+            obtain ⟨hda, hlen, ts, s1, s2, s3⟩ := monoA env henv ctx (a0 :: ar) (a0' :: ar') g g' none vs' ts' da hfa hg
+              (by simp [armVariantsOk]) harity hvg hsa
+            have hne : ts' ≠ [] := by intro h0; rw [h0] at hlen; simp at hlen
+            obtain ⟨hgr, tr, f1, f2⟩ := foldCompat_mono "branches" ts ts' tr' hne s2 s3 hfc
+            have hda' := hda (by simp)
+            subst hda'
+            refine ⟨by simp, tr, ?_, f2, hgr⟩
+            simp [synth, bind, Except.bind, e1, s1, f1, pure, Except.pure]
+          | never =>
+            -- nothing is known about the examinee on the flexible side: only the arms are checked
+            obtain ⟨hda, hlen, ts, s1, s2, s3⟩ := monoA env henv ctx (a0 :: ar) (a0' :: ar') g g' none vs' ts' da hfa hg
+              (by simp [armVariantsOk]) harity hvg hsa
+            have hne : ts' ≠ [] := by intro h0; rw [h0] at hlen; simp at hlen
+            obtain ⟨hgr, tr, f1, f2⟩ := foldCompat_mono "branches" ts ts' tr' hne s2 s3 hfc
+            have hda' := hda (by simp)
+            subst hda'
+            refine ⟨by simp, tr, ?_, f2, hgr⟩
+            simp [synth, bind, Except.bind, e1, s1, f1, pure, Except.pure]
+          | _ => simp [inst] at e2
+        | named n =>
+          cases tf with
+          | named m =>
+            have hnm : m = n := by simpa [inst] using e2
+            subst hnm
+            have hvi : variantsInst vs' vs' = true := variantsInst_self vs' hvgall
+            obtain ⟨hda, hlen, ts, s1, s2, s3⟩ := monoA env henv ctx (a0 :: ar) (a0' :: ar') g g' (some vs') vs' ts' da hfa hg
+              (by simpa [armVariantsOk] using hvi) harity hvg hsa
+            have hne : ts' ≠ [] := by intro h0; rw [h0] at hlen; simp at hlen
+            obtain ⟨hgr, tr, f1, f2⟩ := foldCompat_mono "branches" ts ts' tr' hne s2 s3 hfc
+            have hda' := hda (by simp)
+            subst hda'
+            have hmh : matchHeads vs' (armHeads (a0 :: ar)) [] false = none := by
+              rw [matchHeads_rel _ vs' hvi, fillsA_heads _ _ hfa]; exact hmh'
+            refine ⟨by simp, tr, ?_, f2, hgr⟩
+            simp [synth, bind, Except.bind, e1, hv', hmh, s1, f1, pure, Except.pure]
+          | unknown =>
+            -- nothing is known about the examinee on the flexible side: only the arms are checked
+            obtain ⟨hda, hlen, ts, s1, s2, s3⟩ := monoA env henv ctx (a0 :: ar) (a0' :: ar') g g' none vs' ts' da hfa hg
+              (by simp [armVariantsOk]) harity hvg hsa
+            have hne : ts' ≠ [] := by intro h0; rw [h0] at hlen; simp at hlen
+            obtain ⟨hgr, tr, f1, f2⟩ := foldCompat_mono "branches" ts ts' tr' hne s2 s3 hfc
+            have hda' := hda (by simp)
+            subst hda'
+            refine ⟨by simp, tr, ?_, f2, hgr⟩
+            simp [synth, bind, Except.bind, e1, s1, f1, pure, Except.pure]
+          | never =>
+            -- nothing is known about the examinee on the flexible side: only the arms are checked
+            obtain ⟨hda, hlen, ts, s1, s2, s3⟩ := monoA env henv ctx (a0 :: ar) (a0' :: ar') g g' none vs' ts' da hfa hg
+              (by simp [armVariantsOk]) harity hvg hsa
+            have hne : ts' ≠ [] := by intro h0; rw [h0] at hlen; simp at hlen
+            obtain ⟨hgr, tr, f1, f2⟩ := foldCompat_mono "branches" ts ts' tr' hne s2 s3 hfc
+            have hda' := hda (by simp)
+            subst hda'
+            refine ⟨by simp, tr, ?_, f2, hgr⟩
+            simp [synth, bind, Except.bind, e1, s1, f1, pure, Except.pure]
+          | _ => simp [inst] at e2
+        | _ => simp [variantsOf] at hv'
+    | _ => simp [fillsE] at hf
   | _ => cases e' <;> simp [fillsE] at hf
 termination_by sizeOf e
 
@@ -648,6 +1236,216 @@ theorem monoL (env : Env) (henv : envGround env = true) (ctx : Ctx) (args args' 
               refine ⟨hs.symm, ?_⟩
               simp [a1, expect_ok (inst_compat fa ta a3 a2), h2, pure, Except.pure]
 termination_by sizeOf args
+
+theorem monoList (env : Env) (henv : envGround env = true) (ctx : Ctx) (es es' : List Expr) :
+    MonoList env ctx es es' := by
+  intro g g' ts' d' hf hg hs
+  cases es with
+  | nil =>
+    cases es' with
+    | nil =>
+      simp only [synthList, pure, Except.pure, Except.ok.injEq, Prod.mk.injEq] at hs
+      obtain ⟨x1, x2⟩ := hs; subst x1; subst x2
+      exact ⟨rfl, [], by simp [synthList, pure, Except.pure], by simp [instList], by simp⟩
+    | cons a' r' => simp [fillsL] at hf
+  | cons a r =>
+    cases es' with
+    | nil => simp [fillsL] at hf
+    | cons a' r' =>
+      simp only [fillsL, Bool.and_eq_true] at hf
+      simp only [synthList, bind, Except.bind] at hs
+      cases hsa : synth env ctx g' a' with
+      | error err => simp [hsa] at hs
+      | ok p =>
+        obtain ⟨ta, da⟩ := p
+        simp only [hsa] at hs
+        obtain ⟨hd, fa, a1, a2, a3⟩ := monoE env henv ctx a a' g g' ta da hf.1 hg hsa
+        subst hd
+        cases hsr : synthList env ctx g' r' with
+        | error err => simp [hsr] at hs
+        | ok q =>
+          obtain ⟨tr', dr⟩ := q
+          simp only [hsr, pure, Except.pure, Except.ok.injEq, Prod.mk.injEq, Bool.false_or] at hs
+          obtain ⟨x1, x2⟩ := hs; subst x1; subst x2
+          obtain ⟨hdr, trs, r1, r2, r3⟩ := monoList env henv ctx r r' g g' tr' dr hf.2 hg hsr
+          subst hdr
+          refine ⟨rfl, fa :: trs, ?_, by simp [instList, a2, r2], by simp [a3, r3]⟩
+          simp [synthList, bind, Except.bind, a1, r1, pure, Except.pure]
+termination_by sizeOf es
+
+theorem monoF (env : Env) (henv : envGround env = true) (ctx : Ctx) (fs fs' : List Field) :
+    MonoF env ctx fs fs' := by
+  intro g g' decl d' hf hg hgd hs
+  cases fs with
+  | nil =>
+    cases fs' with
+    | nil =>
+      simp only [checkFields, pure, Except.pure, Except.ok.injEq] at hs ⊢
+      exact ⟨hs.symm, by simp⟩
+    | cons f' r' => cases f'; simp [fillsF] at hf
+  | cons f r =>
+    cases fs' with
+    | nil => cases f; simp [fillsF] at hf
+    | cons f' r' =>
+      cases f with
+      | mk n a =>
+      cases f' with
+      | mk n' a' =>
+      simp only [fillsF, Bool.and_eq_true, beq_iff_eq] at hf
+      obtain ⟨⟨hn, hfa⟩, hfr⟩ := hf
+      subst hn
+      simp only [checkFields, bind, Except.bind] at hs ⊢
+      cases hsa : synth env ctx g' a' with
+      | error err => simp [hsa] at hs
+      | ok p =>
+        obtain ⟨ta, da⟩ := p
+        simp only [hsa] at hs
+        obtain ⟨hd, fa, a1, a2, a3⟩ := monoE env henv ctx a a' g g' ta da hfa hg hsa
+        subst hd
+        simp only [a1]
+        cases hl : decl.lookup n with
+        | none => simp [hl, fail] at hs
+        | some t =>
+          simp only [hl] at hs ⊢
+          obtain ⟨_, hgt⟩ := lookup_all hgd hl
+          cases hex : expect "field" ta t with
+          | error err => simp [hex] at hs
+          | ok u =>
+            simp only [hex] at hs
+            have := compat_ground_eq ta t a3 hgt (expect_inv hex)
+            subst this
+            cases hr : checkFields env ctx g' r' decl with
+            | error err => simp [hr] at hs
+            | ok d2 =>
+              simp only [hr, pure, Except.pure, Except.ok.injEq, Bool.false_or] at hs
+              obtain ⟨hd2, h2⟩ := monoF env henv ctx r r' g g' decl d2 hfr hg hgd hr
+              subst hd2
+              refine ⟨hs.symm, ?_⟩
+              simp [expect_ok (inst_compat fa ta a3 a2), h2, pure, Except.pure]
+termination_by sizeOf fs
+
+theorem monoArm (env : Env) (henv : envGround env = true) (ctx : Ctx) (a a' : Arm) :
+    ∀ (g g' : Gamma) (tb : Ty) (db : Bool), fillsA [a] [a'] = true → gammaInst g g' = true →
+      synthArm env ctx g' a' = .ok (tb, db) →
+      db = false ∧ ∃ fb, synthArm env ctx g a = .ok (fb, false) ∧ inst fb tb = true ∧ ground tb = true := by
+  intro g g' tb db hf hg hs
+  cases a with
+  | mk p gd b =>
+  cases a' with
+  | mk p' gd' b' =>
+  cases gd with
+  | none =>
+    cases gd' with
+    | none =>
+      simp only [fillsA, Bool.and_eq_true] at hf
+      simp only [synthArm] at hs ⊢
+      exact monoB env henv ctx b b' g g' tb db hf.1.2 hg hs
+    | some x' => simp [fillsA] at hf
+  | some x =>
+    cases gd' with
+    | none => simp [fillsA] at hf
+    | some x' =>
+      simp only [fillsA, Bool.and_eq_true] at hf
+      obtain ⟨⟨⟨_, hfx⟩, hfb⟩, _⟩ := hf
+      simp only [synthArm, bind, Except.bind] at hs ⊢
+      cases hsx : synth env ctx g' x' with
+      | error err => simp [hsx] at hs
+      | ok q =>
+        obtain ⟨tx, dx⟩ := q
+        simp only [hsx] at hs
+        obtain ⟨_, fx, x1, x2, x3⟩ := monoE env henv ctx x x' g g' tx dx hfx hg hsx
+        cases hex : expect "guard" tx .bool with
+        | error err => simp [hex] at hs
+        | ok u =>
+          simp only [hex] at hs
+          have hb := compat_ground_eq tx .bool x3 rfl (expect_inv hex)
+          subst hb
+          obtain ⟨hdb, fb, b1, b2, b3⟩ := monoB env henv ctx b b' g g' tb db hfb hg hs
+          refine ⟨hdb, fb, ?_, b2, b3⟩
+          simp [x1, expect_ok (inst_bool fx x2), b1]
+termination_by sizeOf a
+
+theorem monoA (env : Env) (henv : envGround env = true) (ctx : Ctx) (arms arms' : List Arm) :
+    MonoA env ctx arms arms' := by
+  intro g g' vsf vs' ts' da' hf hg hvs har hvg hs
+  cases arms with
+  | nil =>
+    cases arms' with
+    | nil =>
+      simp only [synthArms, pure, Except.pure, Except.ok.injEq, Prod.mk.injEq] at hs
+      obtain ⟨x1, x2⟩ := hs; subst x1; subst x2
+      exact ⟨fun h => absurd rfl h, rfl, [], by simp [synthArms, pure, Except.pure], by simp [instList], by simp⟩
+    | cons a' r' => simp [fillsA] at hf
+  | cons a r =>
+    cases arms' with
+    | nil => cases a with | mk p gd b => cases gd <;> simp [fillsA] at hf
+    | cons a' r' =>
+      have hsplit : fillsA [a] [a'] = true ∧ fillsA r r' = true ∧ armPat a = armPat a' := by
+        cases a with
+        | mk p gd b =>
+        cases a' with
+        | mk p' gd' b' =>
+        cases gd with
+        | none =>
+          cases gd' with
+          | none =>
+            simp only [fillsA, Bool.and_eq_true] at hf ⊢
+            exact ⟨⟨hf.1, trivial⟩, hf.2, patBeq_eq p p' hf.1.1⟩
+          | some x' => simp [fillsA] at hf
+        | some x =>
+          cases gd' with
+          | none => simp [fillsA] at hf
+          | some x' =>
+            simp only [fillsA, Bool.and_eq_true] at hf ⊢
+            exact ⟨⟨hf.1, trivial⟩, hf.2, patBeq_eq p p' hf.1.1.1⟩
+      obtain ⟨hfa, hfr, hpat⟩ := hsplit
+      -- the binders: ground below, instances (or fully flexible) above
+      have harp : ∀ n bs, armPat a' = .variant n bs →
+          ∃ tys, lookupVariant vs' n = some tys ∧ (bs.getD []).length = tys.length := by
+        cases a' with
+        | mk p' gd' b' => exact har.1
+      have harr : ArmsArity vs' r' := by
+        cases a' with
+        | mk p' gd' b' => exact har.2
+      have hbinds : scopeInst (armBinds vsf (armPat a)) (armBinds (some vs') (armPat a')) = true := by
+        rw [hpat]
+        cases hp : armPat a' with
+        | wild => simp [armBinds, scopeInst]
+        | variant n bs =>
+          obtain ⟨tys', hl', hlen⟩ := harp n bs hp
+          have hgt := hvg n tys' hl'
+          simp only [armBinds, hl', Option.getD_some]
+          cases vsf with
+          | none => exact map_unknown_scopeInst _ tys' hlen hgt
+          | some vs =>
+            simp only [armVariantsOk] at hvs
+            obtain ⟨tys, h1, h2, _⟩ := (lookupVariant_rel vs vs' n hvs).2 tys' hl'
+            simp only [h1, Option.getD_some]
+            exact zip_scopeInst _ tys tys' h2 hgt
+      simp only [synthArms, bind, Except.bind] at hs ⊢
+      cases hd' : declareAll ([] :: g') (armBinds (some vs') (armPat a')) with
+      | none => simp [hd', fail] at hs
+      | some g1' =>
+        simp only [hd'] at hs
+        obtain ⟨g1, d1, d2⟩ := declareAll_mono _ _ ([] :: g) ([] :: g') g1' hbinds (gamma_push hg) hd'
+        simp only [d1]
+        cases hsa : synthArm env ctx g1' a' with
+        | error err => simp [hsa] at hs
+        | ok q =>
+          obtain ⟨tb, db⟩ := q
+          simp only [hsa] at hs
+          obtain ⟨hdb, fb, b1, b2, b3⟩ := monoArm env henv ctx a a' g1 g1' tb db hfa d2 hsa
+          subst hdb
+          cases hsr : synthArms env ctx g' (some vs') r' with
+          | error err => simp [hsr] at hs
+          | ok q2 =>
+            obtain ⟨tsr, dr⟩ := q2
+            simp only [hsr, pure, Except.pure, Except.ok.injEq, Prod.mk.injEq, Bool.false_and] at hs
+            obtain ⟨x1, x2⟩ := hs; subst x1; subst x2
+            obtain ⟨_, hlen, tsf, r1, r2, r3⟩ := monoA env henv ctx r r' g g' vsf vs' tsr dr hfr hg hvs harr hvg hsr
+            refine ⟨fun _ => rfl, by simp [hlen], fb :: tsf, ?_, by simp [instList, b2, r2], by simp [b3, r3]⟩
+            simp [b1, r1, pure, Except.pure]
+termination_by sizeOf arms
 
 theorem monoS (env : Env) (henv : envGround env = true) (ctx : Ctx) (ss ss' : List Stmt) : MonoS env ctx ss ss' := by
   intro g g' g1' d' hf hg hs
